@@ -97,9 +97,14 @@ inductive Res (α : Type) where
   | invalid
   deriving Repr
 
+/-- the blocks `BucketStore.Series` reads (`getFor` selects nothing for an inverted range; the label calls
+    have no such test) -/
+def selected (blocks : List Block) (r : Req) : List Block :=
+  if r.mint > r.maxt then [] else blocks.filter (blockOverlaps · r.mint r.maxt)
+
 /-- `BucketStore.Series` before merging: entries of all selected blocks -/
 def bucketSeries (blocks : List Block) (r : Req) : List Entry :=
-  (blocks.filter (blockOverlaps · r.mint r.maxt)).flatMap (blockSeries r.without · r)
+  (selected blocks r).flatMap (blockSeries r.without · r)
 
 /-- `TSDBStore.Series` -/
 def tsdbSeries (db : Block) (r : Req) : Res (List Entry) :=
@@ -228,8 +233,6 @@ def blockSeriesReserved (b : Block) (r : Req) : Nat :=
 /-- `blockSeriesClient.nextBatch`: the chunks limiter is charged the chunk metas in range of every served series -/
 def blockChunksReserved (R : List Nat) (b : Block) (r : Req) : Nat :=
   if r.skipChunks then 0 else ((blockSeries R b r).map (fun e => e.2.length)).sum
-
-def selected (blocks : List Block) (r : Req) : List Block := blocks.filter (blockOverlaps · r.mint r.maxt)
 
 def seriesReserved (blocks : List Block) (r : Req) : Nat :=
   ((selected blocks r).map (blockSeriesReserved · r)).sum
